@@ -31,6 +31,11 @@ type IAMCache struct {
 	service  IAMService
 	iamcache *icache
 	cancel   context.CancelFunc
+	// mu makes a change of the backing service and the matching change of
+	// the cache one step with respect to the other changes and to the
+	// fetch-and-fill of a cache miss, otherwise a lookup that raced with
+	// a delete or an update can put the old account back into the cache
+	mu sync.Mutex
 }
 
 var _ IAMService = &IAMCache{}
@@ -139,6 +144,9 @@ func NewCache(service IAMService, expireTime, cleanupInterval time.Duration) *IA
 
 // CreateAccount send create to IAM service and creates an account cache entry
 func (c *IAMCache) CreateAccount(account Account) error {
+	c.mu.Lock()
+	defer c.mu.Unlock()
+
 	err := c.service.CreateAccount(account)
 	if err != nil {
 		return err
@@ -168,6 +176,9 @@ func (c *IAMCache) GetUserAccount(access string) (Account, error) {
 		return acct, nil
 	}
 
+	c.mu.Lock()
+	defer c.mu.Unlock()
+
 	a, err := c.service.GetUserAccount(access)
 	if err != nil {
 		return Account{}, err
@@ -179,6 +190,9 @@ func (c *IAMCache) GetUserAccount(access string) (Account, error) {
 
 // DeleteUserAccount deletes account from IAM service and cache
 func (c *IAMCache) DeleteUserAccount(access string) error {
+	c.mu.Lock()
+	defer c.mu.Unlock()
+
 	err := c.service.DeleteUserAccount(access)
 	if err != nil {
 		return err
@@ -189,6 +203,9 @@ func (c *IAMCache) DeleteUserAccount(access string) error {
 }
 
 func (c *IAMCache) UpdateUserAccount(access string, props MutableProps) error {
+	c.mu.Lock()
+	defer c.mu.Unlock()
+
 	err := c.service.UpdateUserAccount(access, props)
 	if err != nil {
 		return err
@@ -201,6 +218,9 @@ func (c *IAMCache) UpdateUserAccount(access string, props MutableProps) error {
 // ListUserAccounts is a passthrough to the underlying service and
 // does not make use of the cache
 func (c *IAMCache) ListUserAccounts() ([]Account, error) {
+	c.mu.Lock()
+	defer c.mu.Unlock()
+
 	return c.service.ListUserAccounts()
 }
 
